@@ -15,7 +15,8 @@ def worldServices : List (String × String × Svc) := [
   ("c2", "s1", { ordered := true, blacklist := [], available := true }),
   ("c2", "s2", { ordered := false, blacklist := [], available := true }),
   ("c3", "s1", { ordered := true, blacklist := [sv "c1" "s2"], available := true }),
-  ("c2", "s3", { ordered := true, blacklist := [], available := true })
+  ("c2", "s3", { ordered := true, blacklist := [], available := true }),
+  ("c4", "s1", { ordered := true, blacklist := [], available := true })
 ]
 
 structure St where
@@ -28,7 +29,7 @@ def initNode : Node :=
     KV.set (KV.set m (.svc p.1 p.2.1) (.svc p.2.2)) (.ic (sv p.1 p.2.1)) (.ic {})) []
   let bal : KV String Int := [
     ("u0", userFunds), ("u1", userFunds), ("u2", userFunds), ("u3", userFunds),
-    ("ca1", userFunds - 3 * 210000), ("ca2", userFunds - 4 * 210000), ("ca3", userFunds - 2 * 210000),
+    ("ca1", userFunds - 3 * 210000), ("ca2", userFunds - 4 * 210000), ("ca3", userFunds - 2 * 210000), ("ca4", userFunds - 2 * 210000),
     ("adm0", genesisBalance), ("adm1", genesisBalance), ("adm2", genesisBalance), ("adm3", genesisBalance)]
   { led := { store := store, bal := bal }, height := 6 }
 
@@ -172,9 +173,10 @@ def step (s : St) (ws : List String) : St × String :=
     | none => (s, "none")
   | ["q", "bal", a] => (s, toString (s.node.led.getBal a))
   | ["q", "bals"] =>
-    (s, joinSp (["u0", "u1", "u2", "u3", "ca1", "ca2", "ca3", "adm0", "adm1", "adm2", "adm3"].map
+    (s, joinSp (["u0", "u1", "u2", "u3", "ca1", "ca2", "ca3", "ca4", "adm0", "adm1", "adm2", "adm3"].map
       fun a => s!"{a}={s.node.led.getBal a}"))
   | ["q", "dump"] => (s, "-")
+  | ["q", "dumpdiff"] => (s, "-")
   | "q" :: "view" :: _ => (s, "-")
   | ["q", "height"] => (s, toString s.node.height)
   | ["restart"] => ({ s with node := { s.node with cache := [] } }, s!"ok h={s.node.height}")
